@@ -11,8 +11,10 @@ var substTable = map[string]string{
 	"fmt.Errorf":  "Errorf",
 	"fmt.Sprintf": "Sprintf",
 	"context.WithValue": "WithValue",
+	"context.WithCancel": "WithCancel",
 	"errors.Is":         "ErrorsIs",
 	"storj.io/drpc/drpcmanager.isConnectionReset": "NotConnReset",
+	"storj.io/drpc/drpcserver.isTemporary":        "NotTemporary",
 }
 
 // recvIfaceSubst maps methods to models that take the receiver wrapped in an interface.
